@@ -62,6 +62,7 @@ func checkC03(r *core.Run) {
 	r.Rule("R-C03-keys", "public key parsers reject coordinates >= p and accept only after the curve equation was checked; every accepting return is the validation result or is dominated by it")
 	r.Rule("R-C03-consumed", "the boolean result of every key/signature validation function is consumed at every call site in the program")
 	r.Rule("R-C03-sign", "the signers reject zero s, negate s above n/2 (FORCE_LOW_S true), pad DER integers whose top bit is set, draw nonces in [1,n-1], and the BIP340 signer rejects d outside [1,n-1], zero nonces and self-verifies")
+	r.Rule("R-C03-bounds", "the signature and key parsers read only inside the bytes they were given: every index and slice bound computed from the input (DER lengths) is entailed, against len and not merely cap, by the guards that dominate it - bytes behind the end of the offered string are not part of the signature")
 	r.Explain = "Static: guard/provenance rules over the SSA of lib/secp256k1 and lib/btc: each acceptance condition of the statement is located as a branch whose rejecting edge leads only to rejecting returns and which dominates every accepting return."
 	r.NotCov = "That the group arithmetic makes the verification equation true for valid signatures (see C08), equality with RFC6979/BIP340 reference outputs, recovery returning the signer's key (numerical)."
 	p := load(r, core.LoadOpts{})
@@ -72,6 +73,7 @@ func checkC03(r *core.Run) {
 	// the point additions behind u1*G + u2*Q: equal operands take the doubling branch and leave (shared with C08)
 	c08SpecialCases(r, p, "R-C03-ranges")
 	c03HybridParity(r, p)
+	c03ParsersInside(r, p)
 
 	// ---- ECDSA ranges ----
 	ver := p.Func(secp + ".(*Signature).Verify")
@@ -814,4 +816,27 @@ func c03HybridParity(r *core.Run, p *core.Program) {
 		}
 	}
 	r.Check(len(wrong) == 0 && len(prefixLoads) > 0, rule, "hybrid-prefix-parity", p.Pos(par.Pos()), "06 requires even y, 07 requires odd y (all four combinations evaluated)", strings.Join(wrong, "; "))
+}
+
+// c03ParsersInside: bounds entailment over the parsers of lib/secp256k1 with their byte argument untrusted.
+func c03ParsersInside(r *core.Run, p *core.Program) {
+	ba := an.NewBoundsAnalysis(p, an.BoundsConfig{})
+	n := 0
+	for _, rt := range []struct {
+		fn     string
+		params []int
+	}{
+		{secp + ".(*Signature).ParseBytes", []int{1}}, {secp + ".(*XY).ParsePubkey", []int{1}}, {secp + ".(*XY).ParseXOnlyPubkey", []int{1}},
+		{secp + ".SchnorrVerify", []int{0, 1, 2}}, {secp + ".ecdsa_verify", []int{0, 1, 2}},
+	} {
+		fn := p.Func(rt.fn)
+		if fn == nil {
+			r.Fail("R-C03-bounds", "parser/"+rt.fn, "-", "not found")
+			continue
+		}
+		n++
+		ba.Root(fn, rt.params)
+	}
+	reportBounds(r, p, "R-C03-bounds", ba, nil)
+	r.Count("parser_bounds_functions", len(ba.FuncsAnalysed))
 }
